@@ -195,7 +195,10 @@ func collectFunCall(fc FunCall) []UniRel {
 	case FType_FFunc:
 		fft := _v10.Value
 		argTps := slice.Map(ExprToType, fc.Args)
-		tpArgTps := frt.Pipe(fargs(fft), (func(_r0 []FType) []FType { return slice.Take(slice.Length(argTps), _r0) }))
+		tpArgTps := frt.Pipe(fargs(fft), (func() func(_r0 []FType) []FType {
+			_p0 := slice.Length(argTps)
+			return func(_r0 []FType) []FType { return slice.Take(_p0, _r0) }
+		})())
 		return frt.Pipe(frt.Pipe(slice.Zip(argTps, tpArgTps), (func(_r0 []frt.Tuple2[FType, FType]) [][]UniRel { return slice.Map(unifyTupArg, _r0) })), slice.Concat)
 	default:
 		PanicNow("funcall with non func first arg, possibly TypeVar, NYI.")
@@ -215,7 +218,10 @@ func collectSlice(es []Expr) []UniRel {
 }
 
 func collectBlock(colE func(Expr) []UniRel, colS func(Stmt) []UniRel, block Block) []UniRel {
-	return frt.Pipe(frt.Pipe(slice.Map(colS, block.Stmts), slice.Concat), (func(_r0 []UniRel) []UniRel { return slice.Append(colE(block.FinalExpr), _r0) }))
+	return frt.Pipe(frt.Pipe(slice.Map(colS, block.Stmts), slice.Concat), (func() func(_r0 []UniRel) []UniRel {
+		_p0 := colE(block.FinalExpr)
+		return func(_r0 []UniRel) []UniRel { return slice.Append(_p0, _r0) }
+	})())
 }
 
 func NEPToNT(nep NEPair) frt.Tuple2[string, FType] {
@@ -285,7 +291,10 @@ func collectExprRel(expr Expr) []UniRel {
 			return colB(bl)
 		case ReturnableExpr_RMatchExpr:
 			me := _v12.Value
-			return frt.Pipe(frt.Pipe(frt.Pipe(mrsToBlocks(me.Rules), (func(_r0 []Block) [][]UniRel { return slice.Map(colB, _r0) })), slice.Concat), (func(_r0 []UniRel) []UniRel { return slice.Append(colE(me.Target), _r0) }))
+			return frt.Pipe(frt.Pipe(frt.Pipe(mrsToBlocks(me.Rules), (func(_r0 []Block) [][]UniRel { return slice.Map(colB, _r0) })), slice.Concat), (func() func(_r0 []UniRel) []UniRel {
+				_p0 := colE(me.Target)
+				return func(_r0 []UniRel) []UniRel { return slice.Append(_p0, _r0) }
+			})())
 		default:
 			panic("Union pattern fail. Never reached here.")
 		}
@@ -418,7 +427,10 @@ func resolveOneTypeVarIn(visiting []string, rsv Resolver, tv TypeVar) FType {
 	}, visiting), (func() {
 		frt.PipeUnit(frt.Sprintf1("Recursive type found while resolving type variable: %s.", tv.Name), PanicNow)
 	}))
-	recurse := (func(_r0 TypeVar) FType { return resolveOneTypeVarIn(slice.PushLast(tv.Name, visiting), rsv, _r0) })
+	recurse := (func() func(_r0 TypeVar) FType {
+		_p0 := slice.PushLast(tv.Name, visiting)
+		return func(_r0 TypeVar) FType { return resolveOneTypeVarIn(_p0, rsv, _r0) }
+	})()
 	ei := rsLookupEI(rsv, tv.Name)
 	rcand := ei.resType
 	switch _v15 := (rcand).(type) {
